@@ -6,6 +6,16 @@ ROOT = os.path.dirname(os.path.abspath(__file__))
 
 # id -> (category, technique, level text, level note, design ref)
 CHECKS = {
+    "C01": ("model_checking",
+            "complete enumeration of all token strings up to the length bound x targets x entry points x option vectors, each executed on the real library in a child process with a hang watchdog and abort bisection; deep/wide families on a size grid on an 8 MiB stack",
+            "Every string of up to 3 (thorough 4) tokens over a 36-token alphabet (YAML indicators, anchors, aliases, tags, block scalar headers, document markers, directives, multi-byte characters, BOM, invalid UTF-8 bytes, NUL) x 15 target types x 23 (entry point, option vector) combinations (from_str, from_slice, from_reader whole and 1-byte reads, from_multiple, from_slice_multiple, read iterator drained, with_deserializer_from_str / _from_reader; default, no budget, every budget limit 3, FirstWins/LastWins, no_schema + strict booleans + legacy octal, snippets off, alias limits) is executed; every returned error is rendered 6 ways (Display, Debug, render, two formatters, miette). The product runs in child processes: a panic is caught and attributed, an abort / stack overflow / out-of-memory kills the child and the parent bisects the index range down to the single input, a call that does not return within 5 s is named by the in-child watchdog. 11 deep / wide families (nested sequences, mappings, flow collections, indentation ladders, long scalars, many anchors / aliases / documents) are run on a grid of sizes around the budget boundaries, each point in its own child on an 8 MiB main-thread stack. Isolated probes keep the once-hanging reader/directive class under watch.",
+            "Trusted: the child-process isolation (exit codes, watchdog); stack figures are those of this build (release, overflow-checks and debug-assertions on for serde-saphyr) on this machine.",
+            "DESIGN.md §3 C01"),
+    "C17": ("model_checking",
+            "bounded-exhaustive enumeration of failing documents built from (reflection channel x payload x padding x line structure) x crop radii x formatters x entry points; rendered text judged against a reference of the documented window",
+            "(a) Every failing (input, target) pair of the C01 token space up to the length bound (quick 3, thorough 4 tokens), through from_str and from_reader, x crop radii; (b) 7 reflection channels (ways input text reaches the message: unknown field, unknown variant, duplicate key, invalid value, alias name, tag, plain source line) x 12 payloads (terminal escape sequences, C0, DEL and C1 characters written as YAML escapes and raw) x padding before / after the reflected text (multi-byte, up to 20000 characters) x LF|CRLF x from_str|from_reader x 6 crop radii (0, 1, small, default, huge). Each error is rendered with Display, render, the user formatter, a custom formatter, snippets off and (string input) the miette adapter. For each rendering: no control character other than newline/tab, at most 2 context lines either side, each shown line no wider than the window, the located line is shown and the marker sits under the reported column (where tabs / wide characters do not make columns incomparable).",
+            "Trusted: the harness' parser of the rendered snippet format (gutter, line numbers, marker line). Conventions recorded in DESIGN.md: tab expansion, East-Asian-wide characters and the line after EOF are not compared for the marker clause.",
+            "DESIGN.md §3 C17"),
     "C02": ("model_checking",
             "bounded-exhaustive enumeration of all small anchor/alias node trees, metamorphic oracle against the reference alias expansion, real code executed on every tree",
             "Every node tree up to the node bound (quick <=5, thorough <=6 nodes plus <=7 over a tiny alphabet) with anchors on scalars/sequences/mappings/keys, re-definitions, aliases in key/value/item/merge-value position, in three layouts and for every applicable target, is deserialized twice by the real library: as written and after the harness' reference expansion (aliases replaced by copies of the most recently anchored node, anchors removed). Results must be equal; unresolvable or self-referential aliases must be errors. The space is enumerated completely, so the verdict is a coverage statement for that scope.",
